@@ -72,6 +72,7 @@ Proof.
     + destruct c as [|y l]; [apply Hb; exact H3|]. eapply filter_res_incl; [exact H2 | exact H3].
     + inversion H2; subst c. destruct baseline; apply Hb; exact H3.
   - mbind H as tg st2 H2 H3. mlift H2. mbind H3 as ws st3 H3 H4. mlift H3.
+    destruct (forallb (fun q => Qeq_bool q 0) ws); [discriminate|].
     apply on_src_ok in H4. destruct H4 as [s' [H4 _]]. unfold choice_weighted in H4.
     eapply choice_weighted_mem; exact H4.
   - mbind H as v st1 H1 H2. mbind H2 as l st2 H2 H3. mlift H2.
